@@ -175,6 +175,18 @@ func (p *WorkerPool) SubmitWait(execute func() interface{}) (interface{}, bool) 
 
 // Stop shuts down the worker pool gracefully
 func (p *WorkerPool) Stop() {
+	// Serialize with Resize, which stops, rebuilds and restarts the pool: a
+	// Resize that overlaps a Stop in progress would otherwise see "not
+	// running", take the tasks still queued away from the stopping workers
+	// (their submitters were told "done" with a nil result for tasks that
+	// never ran) and replace the queue and context Stop is working on.
+	p.resizeMu.Lock()
+	defer p.resizeMu.Unlock()
+	p.stop()
+}
+
+// stop is Stop for callers that hold resizeMu.
+func (p *WorkerPool) stop() {
 	// Use atomic to ensure we only stop once
 	if !atomic.CompareAndSwapInt32(&p.running, 1, 0) {
 		return // Not running
@@ -237,7 +249,7 @@ func (p *WorkerPool) Resize(maxWorkers int) {
 	// Stop the pool if it's running
 	// This will close the old queue and wait for all workers to finish
 	if wasRunning {
-		p.Stop()
+		p.stop()
 	}
 
 	// Drain remaining tasks from old queue and notify callers.
